@@ -37,7 +37,7 @@ def panic_site(msg):
 
 
 def run_property(pid, tier, plan, oracle, level="model_checking", rule="", assumptions=(), budget_s=None, extra=None,
-                 base=True, alt_filter=None, collect=None):
+                 base=True, alt_filter=None, collect=None, prepare=None):
     """plan: list of (scenario dict, bound). oracle(scn, res) -> [(sig, detail)]."""
     t0 = time.time()
     bindir = common.build_subject()
@@ -64,6 +64,8 @@ def run_property(pid, tier, plan, oracle, level="model_checking", rule="", assum
             if budget_s:
                 # split what is left evenly over the remaining scenarios
                 left = max(3.0, (budget_s - (time.time() - t0)) / (n - k))
+            if prepare:
+                prepare(ex, scn)
             r = ex.explore(scn, bound, full_oracle, budget_s=left, alt_filter=alt_filter)
             tot["schedules"] += r["schedules"]
             tot["steps"] += r["steps"]
